@@ -602,6 +602,8 @@ func (x *Exec) cevalClause(c *Clause, st *State, fr *Frame) string {
 }
 
 func (x *Exec) cevalBool(e *CExpr, env *CEnv, c *Clause) (out string) {
+	x.specDepth++
+	defer func() { x.specDepth-- }()
 	defer func() {
 		if r := recover(); r != nil {
 			if ce, ok := r.(cevalError); ok {
